@@ -631,6 +631,10 @@ def decide_one(p, a, seed, t0, vr, cr, seeds, kr, fails, maps, image, lookup, co
             violations.append({'kind': 'verification', 'message': 'frame scan: %s at %s:%d' % (h['what'], h['file'], h['line']),
                                'rendered': json.dumps(canary_info['frame_hits'][:10], indent=1), 'fn': None, 'labels': [], 'lines': [],
                                'names': ['C19:frame:%s:%s' % (h['file'], h['what'])]})
+    for k, prim in maps.get('missing_functions', {}).items():
+        if p in prim:
+            inconclusive.append({'kind': 'missing', 'labels': [], 'fn': k, 'lines': [], 'message': 'contracted function no longer exists',
+                                 'rendered': 'contracted function %s no longer exists in the tree; its obligations for this property cannot be generated' % k})
     n_label_pre = len(my_labels) + extra_obl
     # thorough tier: the bounded witness search runs even when every obligation is discharged; a concrete failing
     # input on the real crate while the proofs pass would mean an assumed contract or the specification is wrong
